@@ -100,6 +100,19 @@ M = [
  ("c03_gravitation_added", "pyins/sim.py", "        accel = util.mv_prod(mat_ib, v_i_spline(time, 1) - g_i, at=True)", "        accel = util.mv_prod(mat_ib, v_i_spline(time, 1) + g_i, at=True)", ["C03"], "violation"),
  ("c03_increment_gravity_slope_dropped", "pyins/sim.py", "        e = a_s.c[0] - np.diff(g_i, axis=0) / dt", "        e = a_s.c[0]", ["C03"], "violation"),     # first labelled quiet by mistake: in the inertial frame gravitation rotates with the Earth, dropping its slope costs 5e-6 g
  ("c03_velocity_form_coriolis_sign", "pyins/sim.py", "        v_i = util.mv_prod(mat_in, velocity_n) + np.cross(earth_rate_i, r_i)", "        v_i = util.mv_prod(mat_in, velocity_n) - np.cross(earth_rate_i, r_i)", ["C03"], "violation"),
+ # C04 (error dynamics): the kinematic skeleton (exact) and the Earth-rate blocks (numeric predicates)
+ ("c04_bgyro_velocity_coupling_sign", "pyins/error_model.py", "        B_gyro[np.ix_(samples, self.DV, [0, 1, 2])] = util.mm_prod(V_skew, mat_nb)", "        B_gyro[np.ix_(samples, self.DV, [0, 1, 2])] = -util.mm_prod(V_skew, mat_nb)", ["C04"], "violation"),
+ ("c04_bgyro_attitude_sign", "pyins/error_model.py", "        B_gyro[np.ix_(samples, self.PHI, [0, 1, 2])] = -mat_nb", "        B_gyro[np.ix_(samples, self.PHI, [0, 1, 2])] = mat_nb", ["C04"], "violation"),
+ ("c04_baccel_transposed", "pyins/error_model.py", "        B_accel[np.ix_(samples, self.DV, [0, 1, 2])] = mat_nb", "        B_accel[np.ix_(samples, self.DV, [0, 1, 2])] = np.swapaxes(mat_nb, -1, -2)", ["C04"], "violation"),
+ ("c04_gravity_block_sign", "pyins/error_model.py", "        F[np.ix_(samples, self.DV, self.PHI)] = -util.skew_matrix(g_n)", "        F[np.ix_(samples, self.DV, self.PHI)] = util.skew_matrix(g_n)", ["C04"], "violation"),
+ ("c04_position_attitude_block_dropped", "pyins/error_model.py", "        F[np.ix_(samples, self.DR, self.PHI)] = V_skew", "        F[np.ix_(samples, self.DR, self.PHI)] = 0 * V_skew", ["C04"], "violation"),
+ ("c04_coriolis_factor_two_dropped", "pyins/error_model.py", "        F[np.ix_(samples, self.DV, self.DV)] = -util.skew_matrix(2 * Omega_n + rho_n)", "        F[np.ix_(samples, self.DV, self.DV)] = -util.skew_matrix(Omega_n + rho_n)", ["C04"], "violation"),
+ ("c04_attitude_velocity_block_dropped", "pyins/error_model.py", "        F[np.ix_(samples, self.PHI, self.DV)] = R", "        F[np.ix_(samples, self.PHI, self.DV)] = 0 * R", ["C04"], "violation"),
+ ("c04_gravity_gradient_sign", "pyins/error_model.py", "        F[:, self.DV3, self.DR3] = 2 * earth.gravity(trajectory.lat, 0) / earth.A", "        F[:, self.DV3, self.DR3] = -2 * earth.gravity(trajectory.lat, 0) / earth.A", ["C04"], "violation"),
+ ("c04_attitude_block_transport_rate_dropped", "pyins/error_model.py", "        F[np.ix_(samples, self.PHI, self.PHI)] = (-util.skew_matrix(rho_n + Omega_n) +", "        F[np.ix_(samples, self.PHI, self.PHI)] = (-util.skew_matrix(Omega_n) +", ["C04"], "violation"),
+ ("c04_propagate_sensor_term_sign", "pyins/error_model.py", "        x[i + 1] = Phi[i].dot(x[i]) + delta_sensor[i] * dt[i]", "        x[i + 1] = Phi[i].dot(x[i]) - delta_sensor[i] * dt[i]", ["C04"], "violation"),
+ ("c04_propagate_initial_error_not_transformed", "pyins/error_model.py", "    x0 = error_model.transform_to_internal(trajectory.iloc[0]) @ pva_error.values", "    x0 = error_model.transform_to_internal(trajectory.iloc[-1]) @ pva_error.values", ["C04"], "violation"),
+ ("c04_propagate_trapezoid_rewritten", "pyins/error_model.py", "    Phi = 0.5 * (Fi[1:] + Fi[:-1]) * dt.reshape(-1, 1, 1)", "    Phi = (0.5 * Fi[1:] + 0.5 * Fi[:-1]) * dt.reshape(-1, 1, 1)", ["C04"], "quiet-or-drift"),
 ]
 
 
